@@ -102,6 +102,10 @@ class _Neutralise(ast.NodeTransformer):
                 w = w.replace("/kind=", "/kinD=")
             if "str-contains-,ctx=" not in self.keep:
                 w = w.replace(", ctx=", ", ctX=")
+            if "str-contains-_pos=" not in self.keep:
+                w = w.replace("_pos=", "_poS=")
+            if "str-contains-/_type=" not in self.keep:
+                w = w.replace("/_type=", "/_typE=")
             if w != v:
                 return ast.Constant(value=w, kind=n.kind)
         return n
